@@ -24,12 +24,10 @@ theorem exactDiv_fin_toQ (x y : Int) : (exactDiv (.fin x) (.fin y)).toQ = divExa
     · simp only [Exact.toQ]; congr 1; push_cast; rw [neg_div_neg_eq]
     · rfl
 
-theorem divExt_okq_partial {t : IntTy} {π : Policy} (w : t.WF π) (hl : t.LargerOK) (hco : π.checkOverflow = true)
+theorem divExt_okq {t : IntTy} {π : Policy} (w : t.WF π) (hl : t.LargerOK) (hco : π.checkOverflow = true)
     (dir : Dir) {to0 x y : Int} (h0 : t.inRange to0) (hx : t.inRange x) (hy : t.inRange y)
     (hpre1 : π.checkInfDivInf = true ∨ ¬ ((t.denote π x).isInf = true ∧ (t.denote π y).isInf = true))
-    (hpre2 : π.checkDivZero = true ∨ ¬ (t.denote π y = .fin 0 ∧ ∃ v, t.denote π x = .fin v))
-    (side : t.signed = false ∨ (∀ v u, t.denote π x = .fin v → t.denote π y = .fin u →
-        0 < u ∨ v.tmod u = 0 ∨ dir.notRequested = true)) :
+    (hpre2 : π.checkDivZero = true ∨ ¬ (t.denote π y = .fin 0 ∧ ∃ v, t.denote π x = .fin v)) :
     OKQ t π dir (divExt t π to0 x y dir) (exactDiv (t.denote π x) (t.denote π y)).toQ := by
   unfold divExt divLikeExt sgnNative
   rcases IntTy.denote_cases w hx with ⟨a, d⟩ | ⟨a, b, c, d⟩ | ⟨a, b, c, d⟩ | ⟨a, b, c, d, f⟩ <;>
@@ -71,9 +69,7 @@ theorem divExt_okq_partial {t : IntTy} {π : Policy} (w : t.WF π) (hl : t.Large
   unfold div
   cases hs : t.signed
   · simpa using divUnsigned_okq w hs dir h0 f f' hdz
-  · rcases side with h | h
-    · rw [hs] at h; cases h
-    · simpa using divSigned_okq_partial w hs hl hco dir h0 f f' hdz (h x y d d')
+  · simpa using divSigned_okq w hs hl hco dir h0 f f' hdz
 
 
 theorem idivExt_ok {t : IntTy} {π : Policy} (w : t.WF π) (hl : t.LargerOK) (hco : π.checkOverflow = true)
@@ -218,11 +214,9 @@ theorem div2expExt_okq {t : IntTy} {π : Policy} (w : t.WF π)
     exact ok_toQ (okPinf w dir h0)
   · exact div2exp_okq w dir e f
 
-/-- **partial**: see `umod2exp_tri_partial` -/
-theorem umod2expExt_ok_partial {t : IntTy} {π : Policy} (w : t.WF π)
+theorem umod2expExt_ok {t : IntTy} {π : Policy} (w : t.WF π)
     (dir : Dir) {to0 x : Int} (e : Nat) (h0 : t.inRange to0) (hx : t.inRange x)
-    (hpre : π.checkInfMod = true ∨ (t.denote π x).isInf = false)
-    (side : t.finite π x → (t.signed = false ∨ π.hasInfinity = false ∨ 0 ≤ x ∨ e + 1 ≠ t.bits)) :
+    (hpre : π.checkInfMod = true ∨ (t.denote π x).isInf = false) :
     OK t π dir (modExt t π to0 x fun _ => umod2exp t π to0 x e dir)
       (match t.denote π x with | .fin v => .fin (v % pow2 e) | _ => .nan) := by
   unfold modExt
@@ -235,6 +229,6 @@ theorem umod2expExt_ok_partial {t : IntTy} {π : Policy} (w : t.WF π)
   · rcases hpre with h | h
     · simp only [h, if_true]; exact okNanReason w dir h0 rfl
     · simp [Ext.isInf] at h
-  · exact tri_ok w h0 (umod2exp_tri_partial w dir e f (side f))
+  · exact tri_ok w h0 (umod2exp_tri w dir e f)
 
 end PPLV.Checked
